@@ -11,9 +11,9 @@ import (
 func init() {
 	register(&property{
 		ID:          "C10",
-		Explanation: "the round protocol of Solver.Assume: (R10.1) the assumption flags are re-created and the trail is reset before any new literal is installed, (R10.2) the status is reset to Indet before propagation and the only other status stored is Unsat under a conflict, (R10.3) every installed literal gets binding + flag + trail entry, and propagation from trail position 0 at level 1 lies on every path to return, (R10.4) top-level (level 1) bindings - where the parser put the problem's unit clauses - are never retracted wholesale.",
+		Explanation: "the round protocol of Solver.Assume: (R10.1) the assumption flags are re-created and the trail is reset before any new literal is installed, (R10.2) the status is reset to Indet before propagation and the only other status stored is Unsat under a conflict, (R10.3) every installed literal gets binding + flag + trail entry, and propagation from trail position 0 at level 1 lies on every path to return, (R10.4) where level 1 - which also holds the problem's unit clauses - is retracted wholesale, every recorded unit clause is bound again and pushed on the trail before propagation, (R10.5) every function binding unit clauses from outside (New, AppendClause's unit path) records them for that re-installation.",
 		NotDecided:  "that each round answers Sat exactly when problem and assumptions are jointly satisfiable (depends on the search and on conflict analysis under assumptions).",
-		Rules:       []ruleFn{ruleR10_1_3, ruleR10_4},
+		Rules:       []ruleFn{ruleR10_1_3, ruleR10_4, ruleR10_5, ruleR10_6},
 	})
 }
 
@@ -51,8 +51,108 @@ func levelCleaner(w *World) *ssa.Function {
 	return out
 }
 
+// level1Binding: st stores a level-1 binding (+-1, or lvlToSignedLvl(lit, 1)) into model[lit.Var()]; returns lit.
+func level1Binding(st *ssa.Store) (ssa.Value, bool) {
+	ia, ok := st.Addr.(*ssa.IndexAddr)
+	if !ok {
+		return nil, false
+	}
+	if _, ok := isFieldLoad(ia.X, "solver.Solver", "model"); !ok {
+		return nil, false
+	}
+	idx := ia.Index
+	if c, ok := idx.(*ssa.Convert); ok {
+		idx = c.X
+	}
+	vc, ok := idx.(*ssa.Call)
+	if !ok || len(vc.Call.Args) != 1 || typeShort(vc.Call.Args[0].Type()) != "solver.Lit" {
+		return nil, false
+	}
+	lit := vc.Call.Args[0]
+	if k, ok := constInt(st.Val); ok {
+		return lit, k == 1 || k == -1
+	}
+	if c, ok := st.Val.(*ssa.Call); ok && typeShort(c.Type()) == "solver.decLevel" {
+		hasLit, lvl1 := false, false
+		for _, a := range c.Call.Args {
+			if a == lit {
+				hasLit = true
+			}
+			if typeShort(a.Type()) == "solver.decLevel" {
+				if k, ok := constInt(a); ok && k == 1 {
+					lvl1 = true
+				}
+			}
+		}
+		return lit, hasLit && lvl1
+	}
+	return nil, false
+}
+
+// elemOfSlice: v is an element loaded from a slice (range variable); returns the slice and the index.
+func elemOfSlice(v ssa.Value) (slice, idx ssa.Value, ok bool) {
+	u, ok := v.(*ssa.UnOp)
+	if !ok || u.Op != token.MUL {
+		return nil, nil, false
+	}
+	ia, ok := u.X.(*ssa.IndexAddr)
+	if !ok {
+		return nil, nil, false
+	}
+	return ia.X, ia.Index, true
+}
+
+// factsAppends: stores `s.facts = append(s.facts, ...)` of fn; elem is the single appended element (nil for a
+// spread append), spread the appended slice (nil otherwise).
+type factsAppend struct {
+	st     *ssa.Store
+	elem   ssa.Value
+	spread ssa.Value
+}
+
+func factsAppends(fn *ssa.Function) []factsAppend {
+	var out []factsAppend
+	for _, st := range storesToField(fn, "solver.Solver", "facts") {
+		c, ok := st.Val.(*ssa.Call)
+		if !ok {
+			continue
+		}
+		b, ok := c.Call.Value.(*ssa.Builtin)
+		if !ok || b.Name() != "append" || len(c.Call.Args) != 2 {
+			continue
+		}
+		if _, ok := isFieldLoad(c.Call.Args[0], "solver.Solver", "facts"); !ok {
+			continue
+		}
+		if e := appendedElem(c); e != nil {
+			out = append(out, factsAppend{st: st, elem: e})
+		} else {
+			out = append(out, factsAppend{st: st, spread: c.Call.Args[1]})
+		}
+	}
+	return out
+}
+
+func sameFieldLoad(a, b ssa.Value) bool {
+	if a == b {
+		return true
+	}
+	oa, fa, ba, ok1 := loadedFieldOf(a)
+	ob, fb, bb, ok2 := loadedFieldOf(b)
+	return ok1 && ok2 && oa == ob && fa == fb && ba == bb
+}
+
+func loadedFieldOf(v ssa.Value) (owner, field string, base ssa.Value, ok bool) {
+	u, isU := v.(*ssa.UnOp)
+	if !isU || u.Op != token.MUL {
+		return "", "", nil, false
+	}
+	return fieldOf(u.X)
+}
+
+// R10.4: a wholesale retraction of level 1 is followed by the re-installation of the recorded unit clauses.
 func ruleR10_4(w *World, r *Report) {
-	r.Rule("R10.4", "the function that retracts bindings above a decision level is never called with a constant level below 1: level 1 holds the problem's unit clauses, which exist nowhere else", 5)
+	r.Rule("R10.4", "wherever the function that retracts bindings above a decision level is called with a constant level below 1 (which unbinds the unit clauses of the problem, kept only as level-1 bindings), the caller then re-installs every recorded unit clause - a loop over the whole facts list that binds each element at level 1 and pushes it on the trail - before it propagates", 5)
 	cl := levelCleaner(w)
 	if cl == nil {
 		r.Unk("R10.4", "level cleaner", "-", "no unique method of Solver with a decLevel parameter that zeroes model entries")
@@ -68,13 +168,263 @@ func ruleR10_4(w *World, r *Report) {
 			lvl := args[len(args)-1]
 			counts[w.FuncName(fn)]++
 			key := fmt.Sprintf("%s call #%d of %s", w.FuncName(fn), counts[w.FuncName(fn)], w.FuncName(cl))
-			if v, ok := constInt(lvl); ok {
-				r.Check(v >= 1, "R10.4", key, w.InstrPos(ci), fmt.Sprintf("constant level %d", v),
-					fmt.Sprintf("bindings above level %d are retracted: this unbinds the level-1 facts (unit clauses removed from the clause set by the parser, learned units), so a later answer can contradict a unit clause of the problem", v))
-			} else {
+			v, ok := constInt(lvl)
+			if !ok {
 				r.OK("R10.4", key, w.InstrPos(ci), "backjump level computed at run time (not bounded by this rule)")
+				continue
+			}
+			if v >= 1 {
+				r.OK("R10.4", key, w.InstrPos(ci), fmt.Sprintf("constant level %d", v))
+				continue
+			}
+			// re-installation loop after the retraction
+			why := reinstallsFacts(w, fn, ci)
+			r.Check(why == "", "R10.4", key, w.InstrPos(ci), "level 1 is retracted and every recorded unit clause is bound again and pushed on the trail before propagation",
+				fmt.Sprintf("bindings above level %d are retracted, which unbinds the level-1 facts (unit clauses removed from the clause set by the parser, unit clauses appended later), and %s: a later answer can contradict a unit clause of the problem", v, why))
+		}
+	}
+}
+
+// reinstallsFacts returns "" when, after the instruction `after`, fn runs a loop over all of Solver.facts binding each
+// element at level 1 and appending it to the trail, with no trail reset and no retraction after it; otherwise the reason.
+func reinstallsFacts(w *World, fn *ssa.Function, after ssa.Instruction) string {
+	var reasons []string
+	found := false
+	allInstrs(fn, func(ins ssa.Instruction) {
+		st, ok := ins.(*ssa.Store)
+		if !ok || found {
+			return
+		}
+		lit, ok := level1Binding(st)
+		if !ok {
+			return
+		}
+		sl, idx, ok := elemOfSlice(lit)
+		if !ok {
+			return
+		}
+		if _, isFacts := isFieldLoad(sl, "solver.Solver", "facts"); !isFacts {
+			return
+		}
+		if !fullRangeIndex(idx, func(b ssa.Value) bool {
+			return isLenOf(b, func(x ssa.Value) bool { return sameFieldLoad(x, sl) })
+		}) {
+			reasons = append(reasons, "the loop over the recorded unit clauses at "+w.InstrPos(st)+" does not visit all of them")
+			return
+		}
+		if !instrDominates(after, st) {
+			reasons = append(reasons, "the recorded unit clauses are bound at "+w.InstrPos(st)+" before the retraction, which unbinds them again")
+			return
+		}
+		// trail append of the same literal in the same iteration
+		trailed := false
+		for _, ts := range storesToField(fn, "solver.Solver", "trail") {
+			if c, ok := ts.Val.(*ssa.Call); ok && appendedElem(c) == lit && ts.Block() == st.Block() {
+				trailed = true
 			}
 		}
+		if !trailed {
+			reasons = append(reasons, "the unit clauses bound again at "+w.InstrPos(st)+" are not pushed on the trail, so they are never propagated")
+			return
+		}
+		// nothing after the loop empties the trail or retracts again
+		for _, ts := range storesToField(fn, "solver.Solver", "trail") {
+			if slc, ok := ts.Val.(*ssa.Slice); ok && slc.High != nil && instrReachableFrom(st, ts) {
+				reasons = append(reasons, "the trail is cut at "+w.InstrPos(ts)+" after the unit clauses were pushed on it")
+				return
+			}
+		}
+		for _, cj := range callsIn(fn) {
+			if callee := cj.Common().StaticCallee(); callee != nil && cj != after {
+				if cl := levelCleaner(w); cl == callee && instrReachableFrom(st, cj) {
+					reasons = append(reasons, "bindings are retracted again at "+w.InstrPos(cj)+" after the unit clauses were bound")
+					return
+				}
+			}
+		}
+		found = true
+	})
+	if found {
+		return ""
+	}
+	if len(reasons) == 0 {
+		return "the caller does not bind the recorded unit clauses (Solver.facts) again"
+	}
+	return strings.Join(dedupe(reasons), "; ")
+}
+
+// sameIteration: within the innermost loop around `at`, instruction c runs in every iteration in which `at` runs
+// and which reaches the next iteration or leaves the loop normally.
+func sameIteration(fn *ssa.Function, c, at ssa.Instruction) bool {
+	if c.Block() == at.Block() {
+		return true
+	}
+	var h *ssa.BasicBlock
+	var body map[*ssa.BasicBlock]bool
+	for _, x := range loopHeaders(fn) {
+		lb := loopBlocks(fn, x)
+		if lb[at.Block()] && (h == nil || len(lb) < len(body)) {
+			h, body = x, lb
+		}
+	}
+	if h == nil || !body[c.Block()] {
+		return false
+	}
+	if instrDominates(c, at) && h.Dominates(c.Block()) {
+		return true
+	}
+	ok := true
+	seen := map[*ssa.BasicBlock]bool{}
+	var dfs func(b *ssa.BasicBlock)
+	dfs = func(b *ssa.BasicBlock) {
+		if seen[b] || !ok {
+			return
+		}
+		seen[b] = true
+		for _, nx := range b.Succs {
+			if nx == c.Block() {
+				continue
+			}
+			if nx == h || !body[nx] {
+				// leaving the iteration without c; a return under an Unsat conclusion would be acceptable, but is not assumed
+				ok = false
+				return
+			}
+			dfs(nx)
+		}
+	}
+	dfs(at.Block())
+	return ok
+}
+
+// R10.5: every unit clause bound at level 1 from an outside list is recorded for re-installation.
+func ruleR10_5(w *World, r *Report) {
+	r.Rule("R10.5", "every function that binds, at level 1, the literals of a list of unit clauses coming from outside (the problem's Units, the literals of an appended clause) also records them in the list that Assume re-installs; literals bound at level 1 that are assumptions (flagged so) or results of conflict analysis need no record", 2)
+	an := map[*ssa.Function]bool{}
+	for _, f := range conflictAnalysers(w) {
+		an[f] = true
+	}
+	flagged := func(fn *ssa.Function, lit ssa.Value) bool {
+		ok := false
+		allInstrs(fn, func(ins ssa.Instruction) {
+			st, isSt := ins.(*ssa.Store)
+			if !isSt {
+				return
+			}
+			ia, isIA := st.Addr.(*ssa.IndexAddr)
+			if !isIA {
+				return
+			}
+			if _, isF := isFieldLoad(ia.X, "solver.Solver", "assumptions"); !isF {
+				return
+			}
+			idx := ia.Index
+			if c, isC := idx.(*ssa.Convert); isC {
+				idx = c.X
+			}
+			if vc, isC := idx.(*ssa.Call); isC && len(vc.Call.Args) == 1 && vc.Call.Args[0] == lit {
+				ok = true
+			}
+		})
+		return ok
+	}
+	n := 0
+	var judge func(fn *ssa.Function, lit ssa.Value, at ssa.Instruction, depth int) (verdict string, why string)
+	judge = func(fn *ssa.Function, lit ssa.Value, at ssa.Instruction, depth int) (string, string) {
+		if depth > 3 {
+			return "unk", "wrapper chain too deep"
+		}
+		if derivesFromAnalyser(w, lit, an, 0) {
+			return "ok", "result of conflict analysis (implied by the clause set)"
+		}
+		if flagged(fn, lit) {
+			return "ok", "flagged as an assumption"
+		}
+		if sl, _, ok := elemOfSlice(lit); ok {
+			if _, isFacts := isFieldLoad(sl, "solver.Solver", "facts"); isFacts {
+				return "ok", "re-installation of recorded unit clauses"
+			}
+			for _, fa := range factsAppends(fn) {
+				if fa.elem == lit && fa.st.Block() == at.Block() {
+					return "ok", "recorded literal by literal"
+				}
+				if fa.elem == lit && sameIteration(fn, fa.st, at) {
+					return "ok", "recorded literal by literal"
+				}
+				if fa.spread != nil && sameFieldLoad(fa.spread, sl) {
+					// the spread append runs whenever the loop does and the function returns
+					okAll := true
+					allInstrs(fn, func(ins ssa.Instruction) {
+						if ret, isRet := ins.(*ssa.Return); isRet && instrReachableFrom(at, ret) && !instrDominates(fa.st, ret) {
+							okAll = false
+						}
+					})
+					if okAll || instrDominates(fa.st, at) {
+						return "ok", "the whole list is recorded"
+					}
+				}
+			}
+			return "bad", "the literals of the list bound at level 1 at " + w.InstrPos(at) + " are not recorded in Solver.facts: the next Assume unbinds them for good and later answers can contradict these unit clauses"
+		}
+		if p, ok := lit.(*ssa.Parameter); ok {
+			pi := paramIndex(fn, p)
+			callers := w.Callers[fn]
+			if len(callers) == 0 {
+				return "ok", "no caller"
+			}
+			var bads []string
+			for _, site := range callers {
+				cargs := site.Common().Args
+				if pi < 0 || pi >= len(cargs) {
+					return "unk", "cannot map the literal to the argument at " + w.InstrPos(site)
+				}
+				v, why := judge(site.Parent(), cargs[pi], site, depth+1)
+				switch v {
+				case "bad":
+					bads = append(bads, why)
+				case "unk":
+					return "unk", why
+				}
+			}
+			if len(bads) > 0 {
+				return "bad", strings.Join(dedupe(bads), "; ")
+			}
+			return "ok", fmt.Sprintf("%d caller(s): assumptions or learned literals", len(callers))
+		}
+		return "unk", "origin of the literal bound at level 1 at " + w.InstrPos(at) + " not recognised"
+	}
+	for _, fn := range w.LibFns() {
+		if w.PkgName(fn) != "solver" {
+			continue
+		}
+		k := 0
+		seenLit := map[ssa.Value]bool{}
+		allInstrs(fn, func(ins ssa.Instruction) {
+			st, ok := ins.(*ssa.Store)
+			if !ok {
+				return
+			}
+			lit, ok := level1Binding(st)
+			if !ok || seenLit[lit] {
+				return
+			}
+			seenLit[lit] = true
+			k++
+			n++
+			key := fmt.Sprintf("%s level-1 binding #%d", w.FuncName(fn), k)
+			v, why := judge(fn, lit, st, 0)
+			switch v {
+			case "ok":
+				r.OK("R10.5", key, w.InstrPos(st), why)
+			case "bad":
+				r.Bad("R10.5", key, w.InstrPos(st), why)
+			default:
+				r.Unk("R10.5", key, w.InstrPos(st), why)
+			}
+		})
+	}
+	if n == 0 {
+		r.Unk("R10.5", "level-1 bindings", "-", "no store of a level-1 binding found in package solver")
 	}
 }
 
@@ -166,6 +516,31 @@ func ruleR10_1_3(w *World, r *Report) {
 			}
 		}
 	}
+	// refuted: Unsat stores made because a literal of the parameter is already false when it is to be installed (it
+	// contradicts a unit clause of the problem or an earlier literal of the same list): the round is over.
+	var refuted []*ssa.Store
+	unsatK, _ := w.statusConst("Unsat")
+	alreadyFalse := func(b *ssa.BasicBlock) bool {
+		for _, ec := range dominatingConds(b) {
+			bo, ok := ec.Cond.(*ssa.BinOp)
+			if !ok || bo.Op != token.EQL || !ec.True {
+				continue
+			}
+			if k, ok := constInt(bo.Y); !ok || k != unsatK {
+				continue
+			}
+			c, ok := bo.X.(*ssa.Call)
+			if !ok || typeShort(c.Type()) != "solver.Status" {
+				continue
+			}
+			for _, a := range c.Call.Args {
+				if sl, _, ok := elemOfSlice(a); ok && sl == ssa.Value(lits) {
+					return true
+				}
+			}
+		}
+		return false
+	}
 	// R10.2
 	{
 		var bad []string
@@ -187,8 +562,12 @@ func ruleR10_1_3(w *World, r *Report) {
 						}
 					}
 				}
+				if !okc && alreadyFalse(st.Block()) {
+					okc = true
+					refuted = append(refuted, st)
+				}
 				if !okc {
-					bad = append(bad, "Unsat is stored at "+w.InstrPos(st)+" without a propagation conflict")
+					bad = append(bad, "Unsat is stored at "+w.InstrPos(st)+" without a propagation conflict and without the literal being installed having been found false")
 				}
 			default:
 				bad = append(bad, "a status other than Indet/Unsat is stored at "+w.InstrPos(st))
@@ -225,6 +604,11 @@ func ruleR10_1_3(w *World, r *Report) {
 		} else {
 			allInstrs(fn, func(ins ssa.Instruction) {
 				if ret, ok := ins.(*ssa.Return); ok && !instrDominates(prop, ret) {
+					for _, rs := range refuted {
+						if instrDominates(rs, ret) {
+							return // Unsat because an assumption is already false: nothing to propagate
+						}
+					}
 					bad = append(bad, "return at "+w.InstrPos(ret)+" can be reached without propagating")
 				}
 			})
@@ -294,6 +678,101 @@ func ruleR10_1_3(w *World, r *Report) {
 			r.Bad("R10.3", name+" installs and propagates", w.Pos(fn.Pos()), strings.Join(dedupe(bad), "; "))
 		} else {
 			r.OK("R10.3", name+" installs and propagates", w.InstrPos(prop), fmt.Sprintf("%d install site(s), each with binding, flag and trail entry; propagate(0, 1) dominates every return", len(flagStores)))
+		}
+	}
+}
+
+// R10.6: clause learning under assumptions never decides by "bound at level 1".
+//
+// Level 1 holds unit clauses of the problem, assumptions and everything propagated from them. A literal false at level 1
+// is therefore not false in every round; a learned clause from which it was dropped is valid only under the current
+// assumptions, and survives them. The analyser that consults the assumption flags (and what it calls) may compare a
+// binding's level with the conflict level it was given, never with the constant level 1.
+func ruleR10_6(w *World, r *Report) {
+	r.Rule("R10.6", "in the conflict analyser that consults the assumption flags, and in the functions it calls, no test compares the level of a binding with the constant top level: literals bound at level 1 stay in learned clauses (they may depend on assumptions)", 1)
+	var roots []*ssa.Function
+	for _, an := range conflictAnalysers(w) {
+		reads := false
+		allInstrs(an, func(ins ssa.Instruction) {
+			if u, ok := ins.(*ssa.UnOp); ok && u.Op == token.MUL {
+				if o, f, _, ok := fieldOf(u.X); ok && o == "solver.Solver" && f == "assumptions" {
+					reads = true
+				}
+			}
+		})
+		if reads {
+			roots = append(roots, an)
+		}
+	}
+	if len(roots) == 0 {
+		r.Unk("R10.6", "assumption-aware analyser", "-", "no conflict analyser reads Solver.assumptions")
+		return
+	}
+	isLevel := func(v ssa.Value) bool {
+		for i := 0; i < 4; i++ {
+			switch x := v.(type) {
+			case *ssa.Convert:
+				v = x.X
+				continue
+			case *ssa.Call:
+				if len(x.Call.Args) == 1 && typeShort(x.Type()) == "solver.decLevel" {
+					v = x.Call.Args[0]
+					continue
+				}
+			case *ssa.UnOp:
+				if x.Op == token.MUL {
+					if ia, ok := x.X.(*ssa.IndexAddr); ok {
+						if _, ok := isFieldLoad(ia.X, "solver.Solver", "model"); ok {
+							return true
+						}
+					}
+				}
+				if x.Op == token.SUB {
+					v = x.X
+					continue
+				}
+			}
+			break
+		}
+		return false
+	}
+	for _, root := range roots {
+		reach := w.Reachable(root)
+		var fns []*ssa.Function
+		for fn := range reach {
+			if w.PkgName(fn) == "solver" {
+				fns = append(fns, fn)
+			}
+		}
+		var bad []string
+		nTests := 0
+		for _, fn := range fns {
+			allInstrs(fn, func(ins ssa.Instruction) {
+				bo, ok := ins.(*ssa.BinOp)
+				if !ok {
+					return
+				}
+				switch bo.Op {
+				case token.EQL, token.NEQ, token.LSS, token.LEQ, token.GTR, token.GEQ:
+				default:
+					return
+				}
+				for _, pair := range [][2]ssa.Value{{bo.X, bo.Y}, {bo.Y, bo.X}} {
+					if !isLevel(pair[0]) {
+						continue
+					}
+					nTests++
+					if k, ok := constInt(pair[1]); ok && (k == 1 || k == 2 || k == -1 || k == -2) {
+						bad = append(bad, w.InstrPos(bo))
+					}
+				}
+			})
+		}
+		key := w.FuncName(root) + " never tests for the top level"
+		if len(bad) > 0 {
+			r.Bad("R10.6", key, bad[0], "a binding's level is compared with the constant top level at "+strings.Join(sortedStrings(bad), ", ")+": literals bound at level 1 include assumptions and their consequences; a learned clause that leaves them out is kept in later rounds where they no longer hold")
+		} else {
+			r.OK("R10.6", key, w.Pos(root.Pos()), fmt.Sprintf("%d function(s), %d level test(s), none against a constant level", len(fns), nTests))
 		}
 	}
 }
